@@ -365,6 +365,32 @@ func TestC03(t *testing.T) {
 		if c.Thorough {
 			budget, maxLeaves = 3, 1500000
 		}
+		// the outermost scope holds the built-in functions, and its bindings are bindings like any other: an assignment
+		// to such a name, from the top level or from inside functions and blocks, updates the binding every later read
+		// and call sees, and a parameter of that name shadows it
+		c.Sub("builtin-names-assigned", func(s *Sub) {
+			P, F, R := bn.KwPrint, bn.KwFun, bn.KwReturn
+			var k int64
+			for _, b := range bn.Builtins {
+				forms := []string{
+					b + " = 5;\n" + P + " " + b + ";\n" + P + " " + b + " + 1;\n",
+					F + " set() { " + b + " = 7; " + R + " " + b + "; }\n" + P + " set();\n" + P + " " + b + ";\n",
+					"{ { " + b + " = [1, 2]; } }\n" + P + " " + b + "[1];\n",
+					F + " shadow(" + b + ") { " + b + " = 2; " + R + " " + b + "; }\n" + P + " shadow(1);\n" + P + " " + b + " == " + b + ";\n",
+					F + " mk() { " + F + " inner() { " + b + " = \"s\"; } " + R + " inner; }\nmk()();\n" + P + " " + b + ";\n",
+					b + " = " + b + ";\n" + P + " " + b + " == " + b + ";\n",
+					bn.KwVar + " keep = " + b + ";\n" + b + " = nil;\n" + P + " " + b + ";\n" + b + " = keep;\n" + P + " " + b + " == keep;\n",
+					b + " = 1;\n" + b + "();\n" + P + " \"not reached\";\n",
+				}
+				for _, f := range forms {
+					k++
+					if c.Mine(k) {
+						c.c03Program(s, "builtin-names-assigned", P+" \"start\";\n"+f+P+" \"end\";\n")
+					}
+				}
+			}
+			c.Ev.MarkExhaustive(fmt.Sprintf("every built-in name (%d) x 8 ways of assigning to it and reading it back", len(bn.Builtins)))
+		})
 		c.Sub("enum-programs", func(s *Sub) {
 			saved := map[string]int{}
 			for k, v := range c03Small {
